@@ -133,6 +133,35 @@ def run_tlc(module, cfg=None, *, workdir, env=None, workers=16, timeout=900, sim
     return res
 
 
+def run_tlc_chunked(module, records, *, workdir, name, chunk_bytes=40_000_000, parallel=4, **kw):
+    """Judge `records` (dicts, one NDJSON line each) with a Trace_* module that reads IOEnv.TRACE_FILE: the judges read their
+    input as ONE JSON sequence, which stops working at a few hundred MB, so the records are written to files of at most
+    `chunk_bytes` and judged by one TLC run per file, `parallel` at a time.  Returns the list of TLCResult."""
+    from concurrent.futures import ThreadPoolExecutor
+    workdir = Path(workdir)
+    workdir.mkdir(parents=True, exist_ok=True)
+    for old in workdir.glob(f"{name}_*.ndjson"):
+        old.unlink()
+    paths, cur, size = [], [], 0
+
+    def flush():
+        nonlocal cur, size
+        if cur:
+            pth = workdir / f"{name}_{len(paths)}.ndjson"
+            pth.write_text("\n".join(cur) + "\n")
+            paths.append(pth)
+            cur, size = [], 0
+    for r in records:
+        line = json.dumps(r, separators=(",", ":"))
+        if cur and size + len(line) > chunk_bytes:
+            flush()
+        cur.append(line)
+        size += len(line)
+    flush()
+    with ThreadPoolExecutor(max_workers=parallel) as ex:
+        return list(ex.map(lambda pth: run_tlc(module, module, workdir=workdir, env={"TRACE_FILE": str(pth)}, **kw), paths))
+
+
 def sany(module):
     p = subprocess.run(["java", "-cp", JAR_CP, "tla2sany.SANY", str(SPEC / (module + ".tla"))],
                        cwd=str(SPEC), capture_output=True, text=True, timeout=120)
